@@ -143,7 +143,7 @@ var meta = map[string]*propMeta{
 	},
 	"C14": {
 		Level: "exploration", QuickRuns: 3200, ThoroughRuns: 60000, MemLimitKB: 6 << 20,
-		Rule: "one run = a valid stream of 1..4 seeded zoo values produced by the real encoder x one of 7 documented decode entry points x a drawn type map (complete / empty / partial / shuffled); the transport then delivers (a) the undamaged stream, (b) EVERY prefix of it ended by EOF and by a non-EOF reset (all cut offsets; strided only above 1200/6000 bytes), (c) 24 (quick) / 64 (thorough) drawn structure-aware damage plans of 1..3 faults (flip, set-to-tag, drop, dup, swap, insert, noise) biased to the offsets where the encoder started a write. evaluations = damaged decodes. A run is non-trivial when a fault changed the delivered stream; distinct = distinct (entry point, type-map kind, valid stream hash).",
+		Rule: "one run = a valid stream of 1..4 seeded zoo values produced by the real encoder x one of 7 documented decode entry points x a drawn type map (complete / empty / partial / shuffled); the transport then delivers (a) the undamaged stream, (b) EVERY prefix of it ended by EOF and by a non-EOF reset, and every third prefix ended by a peer gone silent (a temporary error on every further read) (all cut offsets; strided only for long streams), (c) 24 (quick) / 64 (thorough) drawn structure-aware damage plans of 1..3 faults (flip, set-to-tag, drop, dup, swap, insert, noise) biased to the offsets where the encoder started a write. evaluations = damaged decodes. A run is non-trivial when a fault changed the delivered stream; distinct = distinct (entry point, type-map kind, valid stream hash).",
 		Assumptions: []string{"time is measured in executed library statements (instrumented copy), memory with runtime/metrics /gc/heap/allocs:bytes; budgets are 100x (time) and 30x + 1 MiB (memory) the largest per-byte ratio measured on 400 undamaged streams in the same process, clamped to fixed ceilings",
 			"workers run under ulimit -v 6 GiB and a wall-clock watchdog; a worker death is attributed to the run in flight and must reproduce from (seed, run) before it is reported"},
 		Real: append([]string{"bufio.Reader (drawn size) in the bufio entry point"}, commonReal...), Simulated: []string{"sender->decoder transport (SimReader without read-ahead, fault plans)", "simulated clock = executed statements", "logger (no-op)", "map iteration order in the sender (seeded)"},
